@@ -125,7 +125,7 @@ def run(ctx):
     pair_stall_campaign(ctx, 60 if ctx.thorough else 12)
     if ctx.replay and ctx.replay.get('case', {}).get('feed') == 'net-stall': net_stall_campaign(ctx, {}); return
     n = 10000 if ctx.thorough else (4000 if ctx.escalate else 1000)
-    protocol.send_campaign(ctx, 'C04', n, ['sync', 'sync', 'adv'], extra_oracle=sendfeed.stall_oracle)
+    protocol.send_campaign(ctx, 'C04', n, ['sync', 'sync', 'adv', 'bal'], extra_oracle=sendfeed.stall_oracle)
     protocol.recv_campaign(ctx, 'C04', n, ['wf', 'adv'])        # the consumer's half of the flow control: what its requests say
     if not ctx.replay: pipeline.campaign_stall(ctx, 300 if ctx.thorough else 30)
     net_stall_campaign(ctx, {20: 400, 200: 120} if ctx.thorough else ({20: 150, 200: 40} if ctx.escalate else {20: 60, 200: 12}))     # last: the random stream of the campaigns above is unchanged
